@@ -102,16 +102,17 @@ func genRace(c *hx.Ctx) {
 		}
 		explore(c, e1, n, step, [][]op{nop(step - 1)}, 0, 1, !c.Thorough())
 	}
-	// (E2) up to n+1 ticks (thorough: 2n+1) x one request, n in 1..4, every offset: every joint state and transition
-	for n := 1; n <= 4; n++ {
+	// (E2) up to n+1 ticks (thorough: 2n+1) x one request, n in 1..4 (thorough: 1..5), every offset: every joint
+	//      state and transition
+	for n := 1; n <= c.Budget(4, 5); n++ {
 		for q := 0; q < n; q++ {
 			explore(c, "race_cover_ticks_1req", n, step, [][]op{nop(int64(q) * step)}, 0, c.Budget(n+1, 2*n+1), true)
 		}
 	}
-	// (E3) two requests x 1 tick (thorough: 2 ticks for n <= 3), every pair of offsets: every joint state and transition
+	// (E3) two requests x 1 tick (thorough: 2 ticks, n <= 4), every pair of offsets: every joint state and transition
 	for n := 1; n <= c.Budget(3, 4); n++ {
 		ticks := 1
-		if c.Thorough() && n <= 3 {
+		if c.Thorough() {
 			ticks = 2
 		}
 		for q1 := 0; q1 < n; q1++ {
@@ -273,6 +274,20 @@ func emitTime(c *hx.Ctx, class string, st int64, n int, progs []prog) {
 	}
 	c.Emit("time %d %d | %s", st, n, strings.Join(s, " "))
 	c.Count(class)
+	c.Stats["time_programs"] += len(progs)
+	for _, p := range progs {
+		c.Stats["time_resets"] += len(p.resets)
+		if p.after {
+			c.Stats["time_afterfunc"]++
+		}
+		if p.at > 0 && p.at%st == 0 {
+			c.Stats["time_request_at_tick_instant"]++
+		}
+		if p.d < 0 || p.d >= st*int64(n) {
+			c.Stats["time_out_of_range"]++
+		}
+		c.Stats[fmt.Sprintf("time_buckets_%d", n)]++
+	}
 }
 
 func phaseOf(r *hx.Rng, st int64) int64 {
@@ -329,9 +344,6 @@ func genTime(c *hx.Ctx) {
 	//      request in tick period j in {0,1,n-1,n,n+1}; programs of one (s,n) packed 64 per scenario (shared buckets)
 	for _, st := range steps {
 		for _, n := range ns {
-			if n > 8 && !c.Thorough() && st != 1000000 {
-				continue
-			}
 			phases := []int64{0, 1, st / 2, st - 1}
 			if c.Thorough() && n <= 8 {
 				phases = nil
@@ -358,9 +370,6 @@ func genTime(c *hx.Ctx) {
 							if j < 0 {
 								continue
 							}
-							if !c.Thorough() && c.Rng.Intn(3) != 0 && !(q <= 1 || q == int64(n)-1) {
-								continue
-							}
 							batch = append(batch, prog{at: j*st + ph, d: q*st + off, after: (q+j)%5 == 4})
 							if len(batch) == 64 {
 								flush()
@@ -374,7 +383,7 @@ func genTime(c *hx.Ctx) {
 	}
 	// (T2) random scenarios: 1..64 concurrent programs, Reset chains with delays on and off tick instants,
 	//      Reset arguments below step (ignored), in range, and out of range (panic); AfterFunc; range panics
-	K := c.Budget(150, 4000)
+	K := c.Budget(3000, 40000)
 	for i := 0; i < K; i++ {
 		st := steps[c.Rng.Intn(len(steps))]
 		n := ns[c.Rng.Intn(len(ns))]
